@@ -20,6 +20,54 @@ from contracts.c01 import CONTENTS, mk_planning_problems, mk_scenario
 WEATHER = [w for w in Weather if w.name in location_pb2.WeatherEnum.Weather.keys()][-1]
 
 
+def fits_int32(F):
+    """precondition: every integer of the scenario fits the format's 32-bit fields"""
+    if F.native:
+        return
+    import numpy as np
+
+    for name, (c, ty) in list(F.ctx.inputs.items()):
+        if ty is int or ty is np.int64:
+            F.assume(z3.And(c >= 0, c <= 2 ** 31 - 1))
+
+
+def mk_defaults(F):
+    """every object through its public constructor with default arguments"""
+    import numpy as np
+
+    import commonroad.scenario.state as st
+    from commonroad.common.util import Interval
+    from commonroad.geometry.shape import Circle, Rectangle
+    from commonroad.planning.goal import GoalRegion
+    from commonroad.planning.planning_problem import PlanningProblem
+    from commonroad.scenario.lanelet import Lanelet
+    from commonroad.scenario.obstacle import DynamicObstacle, EnvironmentObstacle, ObstacleType, PhantomObstacle, StaticObstacle
+    from commonroad.scenario.scenario import Location, Scenario, ScenarioID
+    from commonroad.scenario.traffic_light import TrafficLight
+    from commonroad.scenario.traffic_sign import TrafficSign, TrafficSignElement, TrafficSignIDZamunda
+    from contracts.c01 import ang, poly2, pos, positive
+
+    sc = F.new(Scenario, positive(F, "dt"), F.new(ScenarioID), "author", set(), "affiliation", "source", F.new(Location))
+    left, right = poly2(F, "dl"), poly2(F, "dr")
+    center = 0.5 * (left + right) if F.native else F.interp.binop(__import__("ast").Mult, 0.5, F.interp.binop(__import__("ast").Add, left, right))
+    F.method(sc, "add_objects", F.new(Lanelet, left, center, right, 1))
+    F.method(sc, "add_objects", F.new(TrafficSign, 5, [TrafficSignElement(TrafficSignIDZamunda.MAX_SPEED, ["10"])], set(), pos(F, "dsign_p")), set())
+    F.method(sc, "add_objects", F.new(TrafficLight, 6, pos(F, "dlight_p")), set())
+    mini = lambda p: F.new(st.InitialState, time_step=0, position=pos(F, p + "p"), orientation=ang(F, p + "o"), velocity=F.real(p + "v"))
+    F.method(sc, "add_objects", [
+        F.new(StaticObstacle, 10, ObstacleType.PARKED_VEHICLE, F.new(Rectangle, positive(F, "ds_l"), positive(F, "ds_w")), mini("ds_i_")),
+        F.new(DynamicObstacle, 11, ObstacleType.CAR, F.new(Circle, positive(F, "dd_r")), mini("dd_i_")),
+        F.new(PhantomObstacle, 12),
+        F.new(EnvironmentObstacle, 13, ObstacleType.BUILDING, F.new(Rectangle, positive(F, "de_l"), positive(F, "de_w"))),
+    ])
+    t0, t1 = F.int("dg_t0"), F.int("dg_t1")
+    F.assume(z3.And(T(t0) >= 0, T(t0) <= T(t1)))
+    goal = F.new(GoalRegion, [F.new(st.CustomState, time_step=F.new(Interval, t0, t1))])
+    ppi = F.new(st.InitialState, time_step=0, position=pos(F, "dpp_p"), orientation=ang(F, "dpp_o"), velocity=F.real("dpp_v"), yaw_rate=F.real("dpp_yaw"), slip_angle=F.real("dpp_slip"))
+    pps = F.new(PlanningProblemSet, [F.new(PlanningProblem, 500, ppi, goal)])
+    return sc, pps
+
+
 class PbRoundTrip(Contract):
     prop = "C02"
     unroll = {"commonroad.common.util.make_valid_orientation": 3, "commonroad.common.util.make_valid_orientation_interval": 3}
@@ -27,18 +75,22 @@ class PbRoundTrip(Contract):
     budget_s = 600
 
 
-for _cname in CONTENTS:
+for _cname in list(CONTENTS) + ["objects built with default arguments"]:
 
     @register
     class WholeFile(PbRoundTrip):
         target = "commonroad.common.file_writer.CommonRoadFileWriter.write_to_file"
         case = "protobuf, %s" % _cname
-        content = CONTENTS[_cname]
+        content = CONTENTS.get(_cname)
         describe = "write_to_file(PROTOBUF) then CommonRoadFileReader.open: same content as C01, reals identical"
 
         def build(self, F):
-            sc = mk_scenario(F, self.content, weather=WEATHER)
-            pps = mk_planning_problems(F) if not self.content else F.new(PlanningProblemSet)
+            if self.content is None:
+                sc, pps = mk_defaults(F)
+            else:
+                sc = mk_scenario(F, self.content, weather=WEATHER)
+                pps = mk_planning_problems(F) if not self.content else F.new(PlanningProblemSet)
+            fits_int32(F)
             return {"sc": sc, "pps": pps, "args": []}
 
         def invoke(self, F, inp):
@@ -48,7 +100,7 @@ for _cname in CONTENTS:
 
                 path = os.path.join(scratch_dir("c02_"), "out.pb")
             else:
-                path = "/nonexistent-dir/verif_c02_%d.pb" % len(self.content)
+                path = "/nonexistent-dir/verif_c02_%d.pb" % len(self.content or "d")
             w = F.new(CommonRoadFileWriter, inp["sc"], inp["pps"], file_format=FileFormat.PROTOBUF)
             F.method(w, "write_to_file", path, OverwriteExistingFile.ALWAYS)
             r = F.new(CommonRoadFileReader, path)
@@ -71,3 +123,66 @@ for _cname in CONTENTS:
                     yield ("%s reproduced" % role,) + approx_parts(F.items(F.attr(inp["sc"], role)), F.items(F.attr(sc2, role)), tol, F, path=role)
                 for k in ("dt", "scenario_id", "author", "tags", "affiliation", "source", "location"):
                     yield ("scenario %s reproduced" % k,) + approx_parts(F.attr(inp["sc"], k), F.attr(sc2, k), tol, F, path=k)
+
+
+def _state_of(F, cls, t, p):
+    import dataclasses
+
+    import commonroad.scenario.state as st
+    from contracts.c01 import ang, pos
+
+    kw = {}
+    for f in dataclasses.fields(cls):
+        if f.name == "time_step":
+            kw[f.name] = t
+        elif f.name == "position":
+            kw[f.name] = pos(F, p + "p")
+        elif f.name == "orientation":
+            kw[f.name] = ang(F, p + "o")
+        elif f.name == "hitch_angle":
+            kw[f.name] = ang(F, p + "h")
+        else:
+            kw[f.name] = F.real(p + f.name)
+    return F.new(cls, **kw)
+
+
+def _state_classes():
+    import dataclasses
+
+    import commonroad.scenario.state as st
+
+    out = []
+    for cls in st.SpecificStateClasses:
+        names = {f.name for f in dataclasses.fields(cls)}
+        if cls is not st.InitialState and {"position", "time_step"} <= names:
+            out.append(cls)
+    return out
+
+
+for _cls in _state_classes():
+
+    @register
+    class TrajectoryStates(PbRoundTrip):
+        target = "commonroad.common.file_writer.CommonRoadFileWriter.write_to_file"
+        case = "protobuf, trajectory of %s" % _cls.__name__
+        cls = _cls
+        describe = "dynamic obstacle whose trajectory states are of this class: the reader picks the same class and every value is identical"
+
+        def build(self, F):
+            from commonroad.geometry.shape import Rectangle
+            from commonroad.prediction.prediction import TrajectoryPrediction
+            from commonroad.scenario.obstacle import DynamicObstacle, ObstacleType
+            from commonroad.scenario.scenario import Location, Scenario, ScenarioID
+            from commonroad.scenario.trajectory import Trajectory
+            from contracts.c01 import initial_state, positive
+
+            sc = F.new(Scenario, positive(F, "dt"), F.new(ScenarioID), "author", set(), "affiliation", "source", F.new(Location))
+            shape = F.new(Rectangle, positive(F, "o_l"), positive(F, "o_w"))
+            traj = F.new(Trajectory, 1, [_state_of(F, self.cls, 1, "s1_"), _state_of(F, self.cls, 2, "s2_")])
+            F.method(sc, "add_objects", F.new(DynamicObstacle, 11, ObstacleType.CAR, shape, initial_state(F, "i_"), F.new(TrajectoryPrediction, traj, shape)))
+            fits_int32(F)
+            return {"sc": sc, "pps": F.new(PlanningProblemSet), "args": []}
+
+        content = ("dynamic",)
+        invoke = WholeFile.invoke
+        post = WholeFile.post
